@@ -6,6 +6,7 @@ package main
 // closed sub-terms through define-fun.
 
 import (
+	"os"
 	"fmt"
 	"math/big"
 	"sort"
@@ -42,6 +43,7 @@ type Term struct {
 	Args  []*Term
 	Bound []*Term // quantifier-bound variables (Op var)
 	Pat   []*Term // optional patterns for quantifiers
+	PatAlt bool   // each pattern is an alternative trigger (otherwise: one multi-pattern)
 	S     *Sort
 	id    int
 	open  bool // mentions a bound variable
@@ -71,6 +73,9 @@ func mk(t *Term) *Term {
 	}
 	for _, a := range t.Pat {
 		fmt.Fprintf(&b, ":%d", a.id)
+	}
+	if t.PatAlt {
+		b.WriteString(":alt")
 	}
 	k := b.String()
 	if x, ok := termTab[k]; ok {
@@ -153,6 +158,13 @@ func Add(a, b *Term) *Term {
 	}
 	if a.IsInt() && !b.IsInt() {
 		return Add(b, a)
+	}
+	// c + (k - c) = k
+	if b.Op == "-" && len(b.Args) == 2 && b.Args[1] == a {
+		return b.Args[0]
+	}
+	if a.Op == "-" && len(a.Args) == 2 && a.Args[1] == b {
+		return a.Args[0]
 	}
 	return op("+", SInt, a, b)
 }
@@ -339,7 +351,42 @@ func fromLinear(lin map[*Term]*big.Int, c *big.Int) *Term {
 }
 
 // bounds infers a constant interval for simple terms.
+// termBounds: constant intervals known from unconditional assumptions (type and
+// well-formedness facts of symbolic values), used only to drop wrap-arounds that cannot happen.
+var termBounds = map[*Term][2]*big.Int{}
+
+// noteBounds records c <= t and t <= c conjuncts of an unconditional fact.
+func noteBounds(fact *Term) {
+	if fact.Op == "and" {
+		for _, a := range fact.Args {
+			noteBounds(a)
+		}
+		return
+	}
+	if fact.Op != "<=" || fact.open {
+		return
+	}
+	a, b := fact.Args[0], fact.Args[1]
+	switch {
+	case a.IsInt() && !b.IsInt():
+		cur := termBounds[b]
+		if cur[0] == nil || a.Int.Cmp(cur[0]) > 0 {
+			cur[0] = a.Int
+		}
+		termBounds[b] = cur
+	case b.IsInt() && !a.IsInt():
+		cur := termBounds[a]
+		if cur[1] == nil || b.Int.Cmp(cur[1]) < 0 {
+			cur[1] = b.Int
+		}
+		termBounds[a] = cur
+	}
+}
+
 func bounds(t *Term) (lo, hi *big.Int, ok bool) {
+	if b, has := termBounds[t]; has && b[0] != nil && b[1] != nil {
+		return b[0], b[1], true
+	}
 	switch {
 	case t.IsInt():
 		return t.Int, t.Int, true
@@ -356,6 +403,13 @@ func bounds(t *Term) (lo, hi *big.Int, ok bool) {
 			hi.Add(hi, h)
 		}
 		return lo, hi, true
+	case t.Op == "-" && len(t.Args) == 2:
+		l1, h1, k1 := bounds(t.Args[0])
+		l2, h2, k2 := bounds(t.Args[1])
+		if !k1 || !k2 {
+			return nil, nil, false
+		}
+		return new(big.Int).Sub(l1, h2), new(big.Int).Sub(h1, l2), true
 	case t.Op == "*" && t.Args[1].IsInt() && t.Args[1].Int.Sign() >= 0:
 		l, h, k := bounds(t.Args[0])
 		if !k {
@@ -681,6 +735,336 @@ func Forall(bound []*Term, body *Term, pat ...*Term) *Term {
 	return t
 }
 
+// ForallAuto: a single-variable quantifier from a specification, with the
+// minimal array reads / function applications over the bound variable as
+// alternative triggers (the solvers' own trigger inference proved erratic on
+// these: explicit triggers make the instantiation deterministic).
+// groundNames: closed subterms that cannot stand in a trigger (they hold an ite or a
+// Boolean connective, typically from merged states) are named by constants; the caller
+// assumes the defining equalities.
+var groundNames = map[*Term]*Term{}
+var namedDef = map[*Term]*Term{} // constant -> the term it names
+
+func abstractGround(body *Term) (*Term, []*Term) {
+	var defs []*Term
+	memo := map[*Term]*Term{}
+	var rec func(x *Term) *Term
+	rec = func(x *Term) *Term {
+		if len(x.Args) == 0 {
+			return x
+		}
+		if r, ok := memo[x]; ok {
+			return r
+		}
+		var r *Term
+		if !x.open && x.S != SBool && !validPattern(x) {
+			c, ok := groundNames[x]
+			if !ok {
+				c = Fresh("named", x.S)
+				groundNames[x] = c
+				namedDef[c] = x
+			}
+			defs = append(defs, Eq(c, x))
+			r = c
+		} else if x.S != SBool && !x.open {
+			r = x
+		} else {
+			args := make([]*Term, len(x.Args))
+			ch := false
+			for i, a := range x.Args {
+				args[i] = rec(a)
+				if args[i] != a {
+					ch = true
+				}
+			}
+			switch {
+			case !ch:
+				r = x
+			case x.Op == "forall" && len(x.Pat) > 0:
+				pats := make([]*Term, len(x.Pat))
+				for i, p := range x.Pat {
+					pats[i] = rec(p)
+				}
+				if x.PatAlt {
+					r = ForallAlt(x.Bound, args[0], pats)
+				} else {
+					r = Forall(x.Bound, args[0], pats...)
+				}
+			default:
+				r = rebuild(x, args)
+			}
+		}
+		memo[x] = r
+		return r
+	}
+	return rec(body), defs
+}
+
+func ForallAuto(bv *Term, body *Term) *Term {
+	if body.IsTrue() || body.IsFalse() {
+		return body
+	}
+	pats := autoPatterns(bv, body)
+	if len(pats) == 0 {
+		return Forall([]*Term{bv}, body)
+	}
+	var written *Term
+	// index normalisation: a read a[c + i] becomes a[k] with k = c + i ranging instead of i, so that
+	// the trigger matches a read of a at any index term (not only those written as c + something)
+	for _, p := range pats {
+		if p.Op != "select" || p.Args[1].Op != "+" || len(p.Args[1].Args) != 2 {
+			continue
+		}
+		ix := p.Args[1]
+		var c *Term
+		if ix.Args[0] == bv {
+			c = ix.Args[1]
+		} else if ix.Args[1] == bv {
+			c = ix.Args[0]
+		}
+		if c == nil || containsTerm(c, bv) || containsTerm(p.Args[0], bv) {
+			continue
+		}
+		// triggers of the written form that are not reads at c + i (function applications over i) keep
+		// the written quantifier alive beside the normalised one: the two are equivalent
+		var keep []*Term
+		for _, q := range pats {
+			if q.Op == "app" {
+				keep = append(keep, q)
+			}
+		}
+		if len(keep) > 0 {
+			o := mk(&Term{Op: "forall", Bound: []*Term{bv}, Args: []*Term{body}, Pat: keep, PatAlt: true, S: SBool})
+			o.open = hasFreeBound(o)
+			written = o
+		}
+		k := BVar(bv.Name+"@", SInt)
+		body = normSums(Subst(body, map[*Term]*Term{bv: Sub(k, c)}), k)
+		bv = k
+		pats = autoPatterns(bv, body)
+		break
+	}
+	if len(pats) == 0 {
+		return Forall([]*Term{bv}, body)
+	}
+	t := mk(&Term{Op: "forall", Bound: []*Term{bv}, Args: []*Term{body}, Pat: pats, PatAlt: true, S: SBool})
+	t.open = hasFreeBound(t)
+	if written != nil {
+		return And(t, written)
+	}
+	return t
+}
+
+// ForallAlt: explicit alternative triggers.
+func ForallAlt(bound []*Term, body *Term, pats []*Term) *Term {
+	if body.IsTrue() || body.IsFalse() {
+		return body
+	}
+	for _, p := range pats {
+		if !validPattern(p) {
+			panic("trigger with boolean structure")
+		}
+	}
+	t := mk(&Term{Op: "forall", Bound: bound, Args: []*Term{body}, Pat: pats, PatAlt: true, S: SBool})
+	t.open = hasFreeBound(t)
+	return t
+}
+
+func autoPatterns(bv, body *Term) []*Term {
+	contains := map[*Term]bool{}
+	var has func(t *Term) bool
+	has = func(t *Term) bool {
+		if v, ok := contains[t]; ok {
+			return v
+		}
+		r := t == bv
+		if !r && t.open {
+			for _, a := range t.Args {
+				if has(a) {
+					r = true
+					break
+				}
+			}
+		}
+		contains[t] = r
+		return r
+	}
+	isCand := func(t *Term) bool {
+		return (t.Op == "select" || (t.Op == "app" && len(t.Args) > 0)) && validPattern(t) && !hasQuantInside(t)
+	}
+	seen := map[*Term]bool{}
+	var out []*Term
+	var walk func(t *Term)
+	walk = func(t *Term) {
+		if seen[t] || !has(t) {
+			return
+		}
+		seen[t] = true
+		if t.Op == "forall" || t.Op == "exists" {
+			// triggers of an outer quantifier may come from the body of an inner one only if free of its variables: skip
+			return
+		}
+		if isCand(t) {
+			// minimal: no argument holds a candidate over the variable
+			inner := false
+			var chk func(u *Term)
+			chk = func(u *Term) {
+				if inner || !has(u) {
+					return
+				}
+				if isCand(u) {
+					inner = true
+					return
+				}
+				for _, a := range u.Args {
+					chk(a)
+				}
+			}
+			for _, a := range t.Args {
+				chk(a)
+			}
+			if !inner {
+				out = append(out, t)
+				return
+			}
+		}
+		for _, a := range t.Args {
+			walk(a)
+		}
+	}
+	walk(body)
+	if liftTriggers {
+		// lift: where a minimal read a[k] is itself the argument of reads or applications (st[a[k]],
+		// f(a[k])), those stand in for it: the array theory makes bare reads a[k] of its own at every
+		// index it meets, and each would instantiate the quantifier for nothing
+		var lifted []*Term
+		seenL := map[*Term]bool{}
+		for _, m := range out {
+			var parents []*Term
+			seenP := map[*Term]bool{}
+			var find func(t *Term)
+			visited := map[*Term]bool{}
+			find = func(t *Term) {
+				if visited[t] || !has(t) || t.Op == "forall" || t.Op == "exists" {
+					return
+				}
+				visited[t] = true
+				for _, a := range t.Args {
+					if a == m && isCand(t) && !seenP[t] {
+						seenP[t] = true
+						parents = append(parents, t)
+					}
+				}
+				for _, a := range t.Args {
+					find(a)
+				}
+			}
+			find(body)
+			if len(parents) == 0 || m.Op != "select" {
+				parents = []*Term{m}
+			}
+			for _, p := range parents {
+				if !seenL[p] {
+					seenL[p] = true
+					lifted = append(lifted, p)
+				}
+			}
+		}
+		out = lifted
+	}
+	if len(out) > 8 {
+		out = out[:8]
+	}
+	return out
+}
+
+var liftTriggers = os.Getenv("GOVC_LIFT") != ""
+
+// normSums rewrites every maximal sum that mentions v into its linear normal form
+// (c + ((k - c) - 1) becomes k - 1).
+func normSums(t, v *Term) *Term {
+	memo := map[*Term]*Term{}
+	var rec func(x *Term) *Term
+	rec = func(x *Term) *Term {
+		if !containsTerm(x, v) || len(x.Args) == 0 {
+			return x
+		}
+		if r, ok := memo[x]; ok {
+			return r
+		}
+		var r *Term
+		if x.Op == "+" || x.Op == "-" {
+			lin, c := linearize(x)
+			// atoms may hold sums of their own (inside selects, mods, ...)
+			nl := map[*Term]*big.Int{}
+			for a, k := range lin {
+				na := rec(a)
+				if old, ok := nl[na]; ok {
+					nl[na] = new(big.Int).Add(old, k)
+				} else {
+					nl[na] = k
+				}
+			}
+			r = fromLinear(nl, c)
+		} else {
+			args := make([]*Term, len(x.Args))
+			ch := false
+			for i, a := range x.Args {
+				args[i] = rec(a)
+				if args[i] != a {
+					ch = true
+				}
+			}
+			switch {
+			case !ch:
+				r = x
+			case x.Op == "forall" && len(x.Pat) > 0:
+				pats := make([]*Term, len(x.Pat))
+				for i, p := range x.Pat {
+					pats[i] = rec(p)
+				}
+				if x.PatAlt {
+					r = ForallAlt(x.Bound, args[0], pats)
+				} else {
+					r = Forall(x.Bound, args[0], pats...)
+				}
+			default:
+				r = rebuild(x, args)
+			}
+		}
+		memo[x] = r
+		return r
+	}
+	return rec(t)
+}
+
+func containsTerm(t, x *Term) bool {
+	if t == x {
+		return true
+	}
+	if !t.open {
+		return false
+	}
+	for _, a := range t.Args {
+		if containsTerm(a, x) {
+			return true
+		}
+	}
+	return false
+}
+
+func hasQuantInside(t *Term) bool {
+	if t.Op == "forall" || t.Op == "exists" {
+		return true
+	}
+	for _, a := range t.Args {
+		if a.open && hasQuantInside(a) {
+			return true
+		}
+	}
+	return false
+}
+
 func Exists(bound []*Term, body *Term) *Term {
 	if body.IsTrue() || body.IsFalse() {
 		return body
@@ -767,6 +1151,16 @@ func Subst(t *Term, m map[*Term]*Term) *Term {
 		var r *Term
 		if !ch {
 			r = x
+		} else if x.Op == "forall" && len(x.Pat) > 0 {
+			pats := make([]*Term, len(x.Pat))
+			for i, p := range x.Pat {
+				pats[i] = rec(p)
+			}
+			if x.PatAlt {
+				r = ForallAlt(x.Bound, args[0], pats)
+			} else {
+				r = Forall(x.Bound, args[0], pats...)
+			}
 		} else {
 			r = rebuild(x, args)
 		}
@@ -862,14 +1256,23 @@ func (t *Term) str(names map[*Term]string) string {
 			b.WriteString("(" + symName(v.Name) + " " + v.S.str + ")")
 		}
 		b.WriteString(") ")
-		if len(t.Pat) > 0 {
-			b.WriteString("(! " + t.Args[0].str(names) + " :pattern (")
+		qid := "q." + strings.Trim(symName(t.Bound[0].Name), "|")
+		if t.Op == "exists" {
+			b.WriteString(t.Args[0].str(names))
+		} else if len(t.Pat) > 0 && t.PatAlt {
+			b.WriteString("(! " + t.Args[0].str(names) + " :qid |" + qid + "|")
+			for _, p := range t.Pat {
+				b.WriteString(" :pattern (" + p.str(names) + ")")
+			}
+			b.WriteString(")")
+		} else if len(t.Pat) > 0 {
+			b.WriteString("(! " + t.Args[0].str(names) + " :qid |" + qid + "| :pattern (")
 			for _, p := range t.Pat {
 				b.WriteString(p.str(names) + " ")
 			}
 			b.WriteString("))")
 		} else {
-			b.WriteString(t.Args[0].str(names))
+			b.WriteString("(! " + t.Args[0].str(names) + " :qid |" + qid + "|)")
 		}
 		b.WriteString(")")
 		return b.String()
